@@ -431,7 +431,7 @@ class Action(object):
         self.finish(exception)
 
     ## Message logging
-    def log(self, message_type, **fields):
+    def log(self, /, message_type, **fields):
         """Log individual message."""
         fields[TIMESTAMP_FIELD] = time.time()
         fields[TASK_UUID_FIELD] = self._identification[TASK_UUID_FIELD]
